@@ -1,10 +1,12 @@
 import FP.Proofs.KFDC
 import FP.Proofs.WalkCoreExample
 /-!
-# FP.Proofs.KFDCScale — the repetition cap `edge_upper_bounds[e] = flow(e)`
+# FP.Proofs.KFDCScale — the repetition cap `edge_upper_bounds[e] = floor(flow(e))`
 
 * `cap_adequate_int_proof`: with weights `≥ 1` (positive integers) no walk of a decomposition runs
-  through an edge more often than the edge's flow value — the cap loses nothing for integer weights;
+  through an edge more often than the edge's flow value, hence (`cap_adequate_floor_proof`, the
+  count is a natural number) than its floor, the cap since fix fcfd0b0 — the cap loses nothing for
+  weights `≥ 1`;
 * the cap is not scale invariant: on `s → a → t` with a self-loop at `a`, all flows `1`, the LP for
   `k = 1` has a satisfying assignment (`loop_unscaled_feasible`), with all flows `1/2` (float weights)
   it has none for any `k` (`loop_scaled_infeasible`), although `[s, a, a, t]` with weight `1/2`
@@ -28,6 +30,13 @@ theorem cap_adequate_int_proof (k : Nat) (m : Nat → Edge → Nat) (w : Nat →
     have := Rat.mul_nonneg (show (0 : Rat) ≤ w i - 1 by grind) hm
     grind
   grind
+
+/-- … and, the count being a natural number, not more often than the floor of the flow value: the
+cap of an SCC edge since fix fcfd0b0 -/
+theorem cap_adequate_floor_proof (k : Nat) (m : Nat → Edge → Nat) (w : Nat → Rat) (fe : Rat) (e : Edge)
+    (hw0 : ∀ j, j < k → 0 ≤ w j) (hdec : explainedM k m w e = fe)
+    (i : Nat) (hi : i < k) (hw : 1 ≤ w i) : (m i e : Rat) ≤ ((fe.floor : Int) : Rat) :=
+  natCast_le_floor (cap_adequate_int_proof k m w fe e hw0 hdec i hi hw)
 
 /-! ## the self-loop instance -/
 
@@ -63,13 +72,17 @@ theorem loop_active (c : Rat) (k : Nat) : ("a", "a") ∈ (inp c k).activeEdges f
     rw [h1, h2]; rfl
   rw [this]; rfl
 
-/-- the cap of the self-loop is its own flow value, whatever `k` -/
-theorem loop_cap (c : Rat) (k : Nat) : kfdcCap (inp c k) ("a", "a") = c := by
+/-- the cap of the self-loop is the floor of its own flow value, whatever `k` -/
+theorem loop_cap (c : Rat) (k : Nat) : kfdcCap (inp c k) ("a", "a") = ((c.floor : Int) : Rat) := by
   rw [kfdcCap_eq _ _ (loop_mem c k)]
   have h1 : isSccEdge (inp c k).st.g ("a", "a") = true := by
     rw [inp_st]; decide
   have h2 : (inp c k).fOpt ("a", "a") = some c := rfl
   rw [h1, h2]; rfl
+
+/-- the cap of the self-loop of the scaled instance is `floor(1/2) = 0` -/
+theorem loop_cap_half (k : Nat) : kfdcCap (inp (1/2) k) ("a", "a") = 0 := by
+  rw [loop_cap]; decide +kernel
 
 theorem loop_f (c : Rat) (k : Nat) : (inp c k).f ("a", "a") = c := rfl
 
@@ -94,8 +107,8 @@ theorem loop_unscaled_feasible : Sat asg1 (kfdcLP (inp 1 1) none) :=
   WalkCoreExample.sat_of_check _ _ (by decide +kernel) (by decide +kernel)
 
 /-- flows `(1/2, 1/2, 1/2)` (the same instance scaled by `1/2`): no satisfying assignment for any
-number of walks — the loop's edge variable is an integer in `[0, 1/2]`, hence `0`, so the loop's flow
-`1/2` cannot be walkExplained -/
+number of walks — the loop's cap is `floor(1/2) = 0`, so the loop's edge variable is `0` and the
+loop's flow `1/2` cannot be walkExplained -/
 theorem loop_scaled_infeasible (k : Nat) (a : Asg) : ¬ Sat a (kfdcLP (inp (1/2) k) none) := by
   intro hsat
   obtain ⟨_, hlayer, hdec⟩ := kfdc_exact_proof (inp (1/2) k) none a base_wf hsat
@@ -108,21 +121,21 @@ theorem loop_scaled_infeasible (k : Nat) (a : Asg) : ¬ Sat a (kfdcLP (inp (1/2)
     apply sum_map_zero
     intro i hi
     obtain ⟨ht, _, hcap⟩ := hlayer i (List.mem_range.1 hi) ("a", "a") (loop_mem _ k)
-    rw [loop_cap] at hcap
+    rw [loop_cap_half] at hcap
     have hm : multOf a i ("a", "a") = 0 := by
       apply Classical.byContradiction
       intro hne
       have h1 : ((1 : Nat) : Rat) ≤ (multOf a i ("a", "a") : Rat) :=
         Rat.natCast_le_natCast.2 (by omega)
       have h1' : (1 : Rat) ≤ (multOf a i ("a", "a") : Rat) := by simpa using h1
-      have : (1 : Rat) ≤ 1/2 := Rat.le_trans h1' hcap
+      have : (1 : Rat) ≤ 0 := Rat.le_trans h1' hcap
       exact absurd this (by decide +kernel)
     rw [ht, hm]; simp
   rw [hz] at he
   exact absurd he (by decide +kernel)
 
 /-- … although the scaled flow has the same one-walk decomposition (weight `1/2`): the walk runs
-through the loop once, which the cap `1/2` of the scaled instance forbids -/
+through the loop once, which the cap `floor(1/2) = 0` of the scaled instance forbids -/
 theorem loop_scaled_decomposition :
     IsWalkDecomp "source" "sink" ((inp (1/2) 1).activeEdges false) (inp (1/2) 1).f 1
       (fun _ => ["s", "a", "a", "t"]) (fun _ => 1/2) := by
@@ -132,7 +145,7 @@ theorem loop_scaled_decomposition :
 /-- the column bound the intended solution violates -/
 theorem loop_scaled_cap_violated :
     kfdcCap (inp (1/2) 1) ("a", "a") < (traversals ["source", "s", "a", "a", "t", "sink"] ("a", "a") : Rat) := by
-  rw [loop_cap]; decide +kernel
+  rw [loop_cap_half]; decide +kernel
 
 end ScaleWitness
 
